@@ -21,6 +21,15 @@ struct Inner {
   BABYLON_SERIALIZABLE((i, 1)(s, 2)(v, 3))
 };
 
+inline bool operator==(const Inner& l, const Inner& r) {
+  return l.i == r.i && l.s == r.s && l.v == r.v;
+}
+struct InnerHash {
+  size_t operator()(const Inner& x) const noexcept {
+    return ::std::hash<int32_t> {}(x.i) ^ ::std::hash<::std::string> {}(x.s);
+  }
+};
+
 struct Outer : public Inner {
   Inner a;
   ::std::unique_ptr<Inner> p;
@@ -111,6 +120,12 @@ void instantiate() {
   round_trip_default<::std::unordered_set<::std::string>>();
   round_trip_default<::std::unordered_map<int32_t, ::std::string>>();
   round_trip_default<::std::unordered_map<::std::string, Inner>>();
+  // a key whose writer consumes cached sizes next to a mapped type that has none (and the reverse above)
+  round_trip_default<::std::unordered_map<Inner, int32_t, InnerHash>>();
+  round_trip_default<::std::unordered_set<Inner, InnerHash>>();
+  round_trip_default<::std::list<Inner>>();
+  round_trip_default<::std::unique_ptr<Inner>>();
+  round_trip_default<::std::vector<::std::unordered_map<Inner, int32_t, InnerHash>>>();
   round_trip_default<::std::unique_ptr<int32_t>>();
   round_trip_default<::std::unique_ptr<::std::string>>();
   round_trip_default<::std::shared_ptr<int32_t>>();
